@@ -23,6 +23,26 @@ def judge(node, step, tr):
         from vf.checks import c03
         if c03.has_name_reuse([tuple(p) for p in node.path] + [step]):
             reuse = '|name-reuse'
+    if kind == 'DeleteApplication' and tr.status == 'crash':
+        # do the app's models refer to each other in a cycle?  (no deletion
+        # order exists in which every referrer goes before its target)
+        app = S.get_app(node.spec, step[0])
+        edges = {}
+        for m in (app or {}).get('models', []):
+            for f in m['fields']:
+                to = f['attrs'].get('to', '')
+                if f['type'] in ('FK', 'O2O', 'M2M') and \
+                        to.startswith(step[0] + '.') and \
+                        to.split('.', 1)[1] != m['name']:
+                    edges.setdefault(m['name'], set()).add(
+                        to.split('.', 1)[1])
+
+        def reaches(a, b, seen=()):
+            return any(x == b or (x not in seen and
+                                  reaches(x, b, seen + (x,)))
+                       for x in edges.get(a, ()))
+        if any(reaches(m, m) for m in edges):
+            reuse += '|reference-cycle'
     if tr.status == 'crash':
         out.append(('C01|crash|%s|%s.%s%s' % (tr.res.exc_type, kind, detail,
                                               reuse),
